@@ -529,6 +529,20 @@ Fixpoint run_msession (fuel : nat) (w : world) (ops : list mop) : list sres * wo
     end
   end.
 
+(* the same, for a caller that catches the panic of an aborted build and goes on using the SAME Session (run_session and
+   run_msession stop at the first abort: the panic unwinds out of the session): the next operation starts from the world the abort
+   left behind -- consistent set, errors and tracker stream of the session included *)
+Fixpoint run_zsession (fuel : nat) (w : world) (ops : list mop) : list sres * world :=
+  match ops with
+  | [] => ([], w)
+  | MEdit r v :: tl => run_zsession fuel (set_content w r v) tl
+  | MSop o :: tl =>
+    match run_sop fuel w o with
+    | (RFuel, w') => ([RFuel], w')
+    | (r, w') => let '(rs, w'') := run_zsession fuel w' tl in (r :: rs, w'')
+    end
+  end.
+
 Definition run_step (fuel : nat) (w : world) (s : step) : list sres * world :=
   match s with
   | HEdit r v => ([], set_content w r v)
